@@ -33,6 +33,8 @@ pub struct GReplay<C> {
     pub tape: Vec<u32>,
     pub gcase: C,
     pub violations: Vec<Violation>,
+    #[serde(default)]
+    pub ncpu: u32,
 }
 
 fn hash_of<C: Serialize>(c: &C) -> u64 {
@@ -183,7 +185,7 @@ pub fn gdrive<C: Serialize + DeserializeOwned + Clone>(spec: &GSpec<C>, cases: u
         match rerun {
             Ok(out) => {
                 sum.violations = out.violations.clone();
-                let rp = GReplay { property: spec.property.into(), engine: spec.engine.into(), config: spec.config.into(), seed, tape: tape.clone(), gcase: case.clone(), violations: out.violations };
+                let rp = GReplay { property: spec.property.into(), engine: spec.engine.into(), config: spec.config.into(), seed, tape: tape.clone(), gcase: case.clone(), violations: out.violations, ncpu: crate::drive::ncpu() };
                 let _ = std::fs::create_dir_all(replay_dir);
                 let path = format!("{replay_dir}/{}-{}-seed{}-{:016x}.json", spec.property, spec.engine, seed, hash_of(&case));
                 std::fs::write(&path, serde_json::to_string_pretty(&rp).unwrap()).ok();
